@@ -103,6 +103,7 @@ type zzvRegProj struct {
 	Advq   []int
 	Rt, Rl bool
 	Proc   map[string]int // frames of the other identity that reached processFrame since the path began
+	Held   []string       // not compared: every held frame, "link:from:type" (diagnostics)
 }
 
 type zzvRegWorld struct {
@@ -406,6 +407,11 @@ func (w *zzvRegWorld) project(maxLink int) zzvRegProj {
 			hs = "ack"
 		}
 		p.Hs = append(p.Hs, hs)
+		for _, d := range []*zzvDir{lk.a.out, lk.b.out} {
+			for _, f := range d.held() {
+				p.Held = append(p.Held, fmt.Sprintf("%d:%s:%02x", l, f.From, f.Type))
+			}
+		}
 		p.Advq = append(p.Advq, len(zzvHeldOf(lk.Dir("B"), protocol.FrameRouteAdvertise)))
 	}
 	p.Rt = w.hasRoute()
